@@ -107,6 +107,9 @@ type followerController struct {
 	syncCond         concurrent.ConditionContext
 	applyEntriesCond concurrent.ConditionContext
 	applyEntriesDone chan any
+	// Held while a round of committed entries is applied (that happens outside the
+	// controller mutex) and while a snapshot replaces the log and the database
+	applyMutex sync.Mutex
 	closeStreamWg    concurrent.WaitGroup
 	log              *slog.Logger
 	config           Config
@@ -574,6 +577,9 @@ func (fc *followerController) processCommittedEntriesLoop(reader wal.Reader, max
 }
 
 func (fc *followerController) processCommittedEntries(maxInclusive int64) error {
+	fc.applyMutex.Lock()
+	defer fc.applyMutex.Unlock()
+
 	fc.log.Debug(
 		"Process committed entries",
 		slog.Int64("min-exclusive", fc.commitOffset.Load()),
@@ -693,6 +699,12 @@ func (fc *followerController) handleSnapshot(stream proto.OxiaLogReplication_Sen
 	if fc.closeStreamWg != closeStreamWg {
 		return
 	}
+
+	// The apply loop reads the log and writes to the database without holding the
+	// controller mutex: let the round in progress finish before both are replaced,
+	// or its next entry would be applied on top of the snapshot.
+	fc.applyMutex.Lock()
+	defer fc.applyMutex.Unlock()
 
 	// Wipe out both WAL and DB contents
 	err := fc.wal.Clear()
